@@ -69,7 +69,8 @@ def check(run):
     run.assumptions += [
         "TTL expiry is driven through TTLCache.Remove (the evictLocked the timer runs); the time.AfterFunc itself is C10's subject",
         "Done/Close/expiry with the close cascade are one atomic spec action (layer part under layerCache.mu, blob part under blobCache.mu in the code)",
-        "registry = in-memory remote.Handler; connectivity = fetcher epochs (BreakConn/Refresh); config CheckAlways, directory caches with SyncAdd, "
+        "registry = in-memory remote.Handler; connectivity = fetcher epochs (BreakConn/Refresh); valid_interval 1 h, elapsed by the driver "
+        "(Tick: lastCheck of every blob is moved into the past) instead of by waiting; directory caches with SyncAdd, "
         "memory LRU of 1 chunk; metadata store = memory reader wrapped to observe Close; mkdir/Close errors not modelled",
         "open files are observed through /proc/self/fd (links below the resolver root)",
         "free-running traces are decided by the monitor only (local samples by the holder, complete projection at quiescent points)",
@@ -84,7 +85,7 @@ def check(run):
                                      name="Layer_mc.cfg 2 names 2 holders 3 resolves"),
                   lambda: run.tlc_mc("Layer", "Layer_mc.cfg", {"NH": "2", "MaxR": "3", "TrackFiles": "TRUE"}, workers=2, timeout=3000, name="Layer_mc.cfg files")])
     if not skip_mc and not thorough:
-        par(run, [lambda: run.tlc_mc("Layer", "Layer_mc.cfg", {"NH": "2", "MaxR": "3"}, workers=2, timeout=900, name="Layer_mc.cfg 1 name 2 holders 3 resolves"),
+        par(run, [lambda: run.tlc_mc("Layer", "Layer_mc.cfg", {"NH": "2", "MaxR": "3", "MaxFault": "1"}, workers=2, timeout=900, name="Layer_mc.cfg 1 name 2 holders 3 resolves 1 fault"),
                   lambda: run.tlc_mc("Layer", "Layer_mc.cfg", {"Names": AB, "NH": "2", "MaxR": "2", "MaxFault": "1"}, workers=2, timeout=900,
                                      name="Layer_mc.cfg 2 names 2 holders 2 resolves"),
                   lambda: run.tlc_mc("Layer", "Layer_mc.cfg", {"NH": "2", "MaxR": "2", "MaxFault": "1", "TrackFiles": "TRUE"}, workers=1, timeout=900,
@@ -96,7 +97,8 @@ def check(run):
         ("LayerKeepsBlobRef", ["HeldLayerServes", "ReadWorks"]),
         ("CleanupOnFailure", ["FailedResolveLeaksNothing", "AllReleasedAndEvictedFreesEverything"]),
         ("IdentityEvict", ["AllReleasedAndEvictedFreesEverything"]),
-        ("CloseReleasesBlob", ["AllReleasedAndEvictedFreesEverything"]))]
+        ("CloseReleasesBlob", ["AllReleasedAndEvictedFreesEverything"]),
+        ("StampOnlyOnSuccess", ["CheckNotFooled"]))]
     ctl.append((dict(small, TrackFiles="TRUE", CloseFiles="FALSE"), ["NoOpenFilesAfterClose"]))
     par(run, [] if skip_mc else [(lambda o=o, x=x: run.tlc_negctl("Layer", "Layer_mc.cfg", o, x, workers=1, drop=INTERNAL)) for o, x in ctl])
 
